@@ -1,5 +1,5 @@
 SPECIFICATION Spec
 CONSTANTS
   MaxLen = 4
-  Fixed <- DevsNone
+  Fixed <- AllDevs
 INVARIANT TypeOK
